@@ -2,12 +2,12 @@
 
 TLC dumps every transition of a bounded configuration of Prunner.tla (Edges_*.tla); lib/planner.py turns the quotient of
 that graph by Prunner!CoreState into scripts.  The driver executes a gated script one model step at a time (the scheduler
-loops are parked at the poll gate, one iteration per `poll` step; ticks are 10 s so that no timer fires during a poll) and
-records, at the quiescent moment after every step, the projection of the reported state onto the model's variables
-(world.projection()).  This module decides whether that sequence of projections is a behaviour of the specification:
+loops are parked at the poll gate, one iteration per `poll` step; ticks are 600 ms, the loop's pause 1 ms) and records the
+full vocabulary at the quiescent moment after every step.  This module decides whether the sequence of views (ConfView of
+Prunner.tla, computed from the recorded vocabulary by planner.view_of_st) and replies is a behaviour of the specification:
 
     belief_0     = { initial node }
-    belief_(k+1) = { quiescent n' : n in belief_k, n --op_k--> m, m ==goroutine steps==> n', projection(n') = observed_(k+1) }
+    belief_(k+1) = { quiescent n' : n in belief_k, n --op_k, reply_k--> m, m ==goroutine steps==> n', view(n') = observed_(k+1) }
 
 The real runner resolves its own races (which stage goroutine assigns the scheduler's last error last, in which order a
 pass visits the stages, ...), which the model has as nondeterminism, so the set of model states the runner may be in is
